@@ -148,6 +148,32 @@ def default_periodic_rule(ctx, rule, p):
         okf = ast.unparse(b.get("periodic_data", ast.Constant(None))) == "periodic_data"
     ctx.expect(okf, rule, "interpolate_dataset_grid[mapping forwarded]",
                "the periodic-data mapping is handed on to the per-axis interpolation", fg.loc(ac[0]) if ac else fg.loc())
+    # ... and which coordinates are periodic is either left to the per-axis default (longitude and direction, checked below), or
+    # the caller's own table, or a table that still names both
+    if len(ac) == 1:
+        from .fc import substitute_defs
+        b = binding.bind_by_name(fa, ac[0], False) or {}
+        pcv = b.get("periodic_coordinates")
+        verdict = None
+        detail = "not passed: the per-axis default applies"
+        if pcv is None or (isinstance(pcv, ast.Constant) and pcv.value is None):
+            verdict = True
+        else:
+            detail = ast.unparse(pcv)
+            if isinstance(pcv, ast.Name) and pcv.id in fg.params and not any(
+                    isinstance(t, ast.Name) and t.id == pcv.id for n in own_walk(fg.node) if isinstance(n, ast.Assign) for t in n.targets):
+                verdict = True      # the caller's table, untouched
+            else:
+                e = substitute_defs(fg.node, pcv, set(fg.params))
+                detail = ast.unparse(e)
+                if isinstance(e, ast.Dict) and all(k is not None for k in e.keys):
+                    keys = {ast.unparse(k): ast.unparse(v) for k, v in zip(e.keys, e.values)}
+                    has_dir = keys.get("'direction'") == "360"
+                    has_lon = any("longitude" in k.lower() and v == "360" for k, v in keys.items())
+                    verdict = has_dir and has_lon
+        ctx.expect(verdict, rule, "interpolate_dataset_grid[periodic coordinates]",
+                   "the table of periodic coordinates that reaches the per-axis interpolation names direction and longitude with period "
+                   "360 (or is the per-axis default, or the caller's own table)", fg.loc(ac[0]), derived=detail)
     pc = [c for c in calls(fd.node) if call_name(c) == "interpolate_at_points"]
     okf = False
     if len(pc) == 1:
@@ -458,5 +484,5 @@ def run(ctx):
               lambda sub, mp: binding.name_agreement_rule(sub, "R14.4b", CallGraph(mp), mp.all_functions), "swapped keywords")
     ctx.require_count("R14.1", 4)
     ctx.require_count("R14.2", 13)
-    ctx.require_count("R14.3", 17)
+    ctx.require_count("R14.3", 18)
     ctx.require_count("R14.4", 30)
